@@ -212,7 +212,8 @@ func handleObjectWithAssociation(metaBkt *bbolt.Bucket, diff *CountersDiff, curr
 		}
 
 		st := objectStatus(metaCursor, target, currEpoch)
-		if st == statusTombstoned {
+		// status of an already expired object hides its tombstone, check it explicitly
+		if st == statusTombstoned || inGarbage(metaCursor, target) == statusTombstoned {
 			return logicerr.Wrap(apistatus.ErrObjectAlreadyRemoved)
 		}
 
